@@ -1,27 +1,40 @@
 #!/usr/bin/env python3
 """Random grammar generator shared by the grammar-level checks.  All randomness comes from one PRNG
-seeded by the caller.  Produces s-expression lines understood by cpp/lugdrv.cpp and ocaml/driver.ml."""
+given by the caller.  Grammars are nested tuples serialised to the s-expression lines understood by
+cpp/lugdrv.cpp and ocaml/driver.ml.  Inputs are sampled from the grammar (so that most parses go deep)
+and then mutated."""
 import random
+
+CONSUMING_LEAVES = [('chr', '61'), ('chr', '62'), ('chr', '63'), ('str', '6162'), ('any',)]
+
+
+def ser(t):
+    if isinstance(t, tuple):
+        return '(' + ' '.join(ser(x) for x in t) + ')'
+    return str(t)
+
 
 class Gen:
     def __init__(self, rnd, features=(), alphabet=b"aaabbc  \n", max_rules=4, max_depth=4, ninputs=6, maxlen=8,
-                 wellformed=False, space_choices=("default", "default", "(nop)", "(star (chr 20))")):
+                 wellformed=False, space_choices=("default", "default", ("nop",), ("star", ("chr", "20")))):
         self.rnd = rnd
         self.f = set(features)
         self.alphabet = alphabet
         self.max_rules, self.max_depth, self.ninputs, self.maxlen = max_rules, max_depth, ninputs, maxlen
         self.wellformed = wellformed
         self.space_choices = space_choices
-        self.leaves = ['(chr 61)', '(chr 62)', '(chr 63)', '(str 6162)', '(any)']
-        self.leaves2 = ['(eps)', '(eoi)', '(eol)', '(nop)']
+        self.leaves = list(CONSUMING_LEAVES)
+        self.leaves2 = [('eps',), ('eoi',), ('eol',), ('nop',)]
         if 'cut' in self.f:
-            self.leaves2 += ['(cut)', '(accept)']
+            self.leaves2 += [('cut',), ('accept',)]
         if 'env' in self.f:
-            self.leaves2 += ['(when c)', '(unless c)', '(match s)', '(exists s)', '(missing s)', '(match_all s)', '(match_any s)', '(match_front s 0)', '(match_back s 1)']
+            self.leaves2 += [('when', 'c'), ('unless', 'c'), ('match', 's'), ('exists', 's'), ('missing', 's'), ('match_all', 's'),
+                             ('match_any', 's'), ('match_front', 's', 0), ('match_back', 's', 1)]
         if 'class' in self.f:
-            self.leaves += ['(cls any c 1)', '(cls any c 16)', '(cls any c 128)', '(cls none c 128)', '(cls all c 65)', '(rng 97 98)', '(rng 48 122)', '(cls any p 8)', '(cls any g 2)']
+            self.leaves += [('cls', 'any', 'c', 1), ('cls', 'any', 'c', 16), ('cls', 'any', 'c', 128), ('cls', 'none', 'c', 128),
+                            ('cls', 'all', 'c', 65), ('rng', 97, 98), ('rng', 48, 122), ('cls', 'any', 'p', 8), ('cls', 'any', 'g', 2)]
         if 'utf8' in self.f:
-            self.leaves += ['(str c3a9)', '(str e282ac)', '(rng 128 2047)', '(rng 233 8364)', '(str f09f9880)']
+            self.leaves += [('str', 'c3a9'), ('str', 'e282ac'), ('rng', 128, 2047), ('rng', 233, 8364), ('str', 'f09f9880')]
         ops = ['seq', 'seq', 'seq', 'alt', 'alt', 'star', 'plus', 'opt', 'not', 'and', 'rep', 'list']
         if 'dir' in self.f:
             ops += ['lexeme', 'noskip', 'skip']
@@ -36,84 +49,200 @@ class Gen:
         if 'err' in self.f:
             ops += ['expect', 'expect', 'raise', 'recwith', 'report', 'report', 'respond', 'pred']
         self.ops = ops
+        self.rule_consuming = {}
 
-    def leaf(self, rules, consuming=False):
+    # ---- expressions
+    def leaf(self, rules, consuming, later):
         r = self.rnd
-        if rules and r.random() < 0.35:
+        pool = later if (self.wellformed and not consuming) else rules
+        if self.wellformed and consuming:
+            pool = [x for x in later if self.rule_consuming.get(x)]
+        if pool and r.random() < 0.35:
             if 'prec' in self.f and r.random() < 0.3:
-                return '(prec %s %d)' % (r.choice(rules), r.randint(0, 3))
-            return '(ref %s)' % r.choice(rules)
+                return ('prec', r.choice(pool), r.randint(0, 3))
+            return ('ref', r.choice(pool))
         if consuming or r.random() < 0.6:
             return r.choice(self.leaves)
         return r.choice(self.leaves + self.leaves2)
 
-    def expr(self, d, rules):
+    def expr(self, d, rules, consuming=False, later=None, guarded=False):
+        """later: rules that may be referenced without guard (well-formed mode); guarded: a consuming
+        prefix has been matched in this sequence, any rule may be referenced"""
         r = self.rnd
+        if later is None:
+            later = rules
+        avail = rules if (guarded or not self.wellformed) else later
         if d <= 0 or r.random() < 0.22:
-            return self.leaf(rules)
+            return self.leaf(rules, consuming, avail)
         op = r.choice(self.ops)
-        e = lambda dd=d - 1: self.expr(dd, rules)
-        if op in ('seq', 'alt', 'list'):
-            return '(%s %s %s)' % (op, e(), e())
+        wf = self.wellformed
+        e = lambda c=False, g=guarded: self.expr(d - 1, rules, c, later, g)
+        if op == 'seq':
+            if consuming and wf:
+                if r.random() < 0.5:
+                    a = e(True)
+                    return ('seq', a, e(False, True))
+                return ('seq', e(False), e(True))
+            a = e(False)
+            return ('seq', a, e(False, guarded))
+        if op == 'alt':
+            return ('alt', e(consuming), e(consuming))
+        if op == 'list':
+            return ('list', e(True if wf else consuming), e(False))
+        if op in ('star', 'plus'):
+            if consuming and op == 'star' and wf:
+                op = 'plus'
+            return (op, e(True if wf else False))
+        if op == 'opt':
+            if consuming and wf:
+                return e(True)
+            return ('opt', e())
+        if op in ('not', 'and'):
+            if consuming and wf:
+                return ('seq', (op, e()), e(True))
+            return (op, e())
         if op == 'rep':
             a = r.randint(0, 3); b = a + r.randint(0, 2)
-            return '(rep %d %d %s)' % (a, b, e())
+            if consuming and wf:
+                a = max(a, 1); b = max(b, a)
+            return ('rep', a, b, e(True if wf else False))
         if op in ('act', 'cap'):
-            return '(%s %d %s)' % (op, r.randint(0, 9), e())
+            return (op, r.randint(0, 9), e(consuming))
         if op in ('sym', 'localto'):
-            return '(%s s %s)' % (op, e())
+            return (op, 's', e(consuming))
         if op in ('on', 'off'):
-            return '(%s c %s)' % (op, e())
+            return (op, 'c', e(consuming))
+
         def rec():
             if rules and r.random() < 0.4:
-                return '(ref %s)' % r.choice(rules)
-            return '(respond %d %s)' % (r.randint(0, 4), self.expr(min(d - 1, 2), rules))
+                return ('ref', r.choice(rules))
+            return ('respond', r.randint(0, 4), self.expr(min(d - 1, 2), rules))
         if op == 'expect':
-            return '(expect %s L%d%s)' % (e(), r.randint(0, 3), (' ' + rec()) if r.random() < 0.5 else '')
+            t = ('expect', e(), 'L%d' % r.randint(0, 3))
+            return t + ((rec(),) if r.random() < 0.5 else ())
         if op == 'raise':
-            return '(raise L%d%s)' % (r.randint(0, 3), (' ' + rec()) if r.random() < 0.5 else '')
+            t = ('raise', 'L%d' % r.randint(0, 3))
+            return t + ((rec(),) if r.random() < 0.5 else ())
         if op == 'recwith':
-            return '(recwith %s %s)' % (rec(), e())
+            return ('recwith', rec(), e())
         if op == 'report':
-            return '(report %d %d %s)' % (r.randint(0, 9), r.choice([0, 1, 2, 3, 4, 9]), e())
+            return ('report', r.randint(0, 9), r.choice([0, 1, 2, 3, 4, 9]), e())
         if op == 'respond':
-            return '(respond %d %s)' % (r.randint(0, 4), e())
+            return ('respond', r.randint(0, 4), e())
         if op == 'pred':
-            return '(pred %d %d)' % (r.randint(0, 9), r.randint(0, 1))
-        return '(%s %s)' % (op, e())
+            return ('pred', r.randint(0, 9), r.randint(0, 1))
+        return (op, e(consuming))
 
-    def inputs(self):
+    # ---- sampling an input from an expression
+    def sample(self, t, G, depth=0):
         r = self.rnd
-        out = []
-        for _ in range(self.ninputs):
-            ln = r.randint(0, self.maxlen)
-            out.append(bytes(r.choice(self.alphabet) for _ in range(ln)))
-        return out
+        op = t[0]
+        if depth > 12:
+            return b''
+        s = lambda x: self.sample(x, G, depth + 1)
+        if op in ('chr', 'str'):
+            return bytes.fromhex(t[1])
+        if op == 'any':
+            return bytes([r.choice(self.alphabet)])
+        if op == 'cls':
+            return bytes([r.choice(b"a1 A_")])
+        if op == 'rng':
+            return bytes([r.choice(b"ab9z")]) if t[1] < 128 else "é".encode()
+        if op == 'eol':
+            return r.choice([b"\n", b"\r\n", b"\r"])
+        if op in ('ref', 'prec'):
+            return s(G[t[1]]) if t[1] in G else b''
+        if op == 'seq':
+            sp = b' ' * r.choice([0, 0, 1, 2]) if self.spacey else b''
+            return s(t[1]) + sp + s(t[2])
+        if op == 'alt':
+            return s(t[r.choice([1, 2])])
+        if op == 'list':
+            out = s(t[1])
+            for _ in range(r.randint(0, 2)):
+                out += s(t[2]) + s(t[1])
+            return out
+        if op == 'star':
+            return b''.join(s(t[1]) for _ in range(r.randint(0, 3)))
+        if op == 'plus':
+            return b''.join(s(t[1]) for _ in range(r.randint(1, 3)))
+        if op == 'opt':
+            return s(t[1]) if r.random() < 0.5 else b''
+        if op in ('not', 'and'):
+            return b''
+        if op == 'rep':
+            return b''.join(s(t[3]) for _ in range(r.randint(t[1], t[2])))
+        if op in ('act', 'cap', 'sym', 'localto', 'on', 'off'):
+            return s(t[2])
+        if op in ('lexeme', 'noskip', 'skip', 'caseless', 'cased', 'block', 'local', 'cutb', 'cuta'):
+            return s(t[1])
+        if op == 'expect':
+            return s(t[1])
+        if op == 'recwith':
+            return s(t[2])
+        if op == 'report':
+            return s(t[3])
+        if op == 'respond':
+            return s(t[2])
+        return b''
+
+    def mutate(self, s):
+        r = self.rnd
+        s = bytearray(s)
+        m = r.random()
+        if m < 0.45:
+            return bytes(s)
+        if m < 0.6 and s:
+            del s[r.randrange(len(s))]
+        elif m < 0.75:
+            s.insert(r.randrange(len(s) + 1), r.choice(self.alphabet))
+        elif m < 0.9 and s:
+            s[r.randrange(len(s))] = r.choice(self.alphabet)
+        else:
+            s = s[:r.randint(0, len(s))]
+        return bytes(s)
 
     def grammar(self):
         r = self.rnd
         k = r.randint(1, self.max_rules)
         names = ['R%d' % j for j in range(k)]
-        parts = ['(space %s)' % r.choice(self.space_choices)]
+        self.rule_consuming = {nm: (r.random() < 0.6) for nm in names}
+        space = r.choice(self.space_choices)
+        self.spacey = (space == "default" or (isinstance(space, tuple) and space[0] == 'star'))
+        parts = [('space', space)]
         order = names[:]
         r.shuffle(order)
+        G = {}
         for nm in order:
             if 'copy' in self.f and k > 1 and r.random() < 0.1:
-                parts.append('(rulecopy %s %s)' % (nm, r.choice([n for n in names if n != nm])))
+                src = r.choice([n for n in names if n != nm])
+                parts.append(('rulecopy', nm, src))
+                G[nm] = ('ref', src)
             else:
-                parts.append('(rule %s %s)' % (nm, self.expr(r.randint(1, self.max_depth), names)))
-        parts.append('(start %s)' % r.choice(names))
-        return parts
+                later = [n for n in names if n > nm]
+                body = self.expr(r.randint(1, self.max_depth), names, consuming=self.rule_consuming[nm] and self.wellformed, later=later)
+                parts.append(('rule', nm, body))
+                G[nm] = body
+        start = r.choice(names) if not self.wellformed else names[0]
+        parts.append(('start', start))
+        return parts, G, start
 
-    def case(self, chunked=False):
-        parts = self.grammar()
-        for s in self.inputs():
-            parts.append('(input %s)' % s.hex())
+    def case(self, chunked=False, sampled=True):
+        parts, G, start = self.grammar()
+        inputs = []
+        for _ in range(self.ninputs):
+            if sampled and self.rnd.random() < 0.7:
+                s = self.mutate(self.sample(G[start], G))[:self.maxlen * 3]
+            else:
+                s = bytes(self.rnd.choice(self.alphabet) for _ in range(self.rnd.randint(0, self.maxlen)))
+            inputs.append(s)
+        for s in inputs:
+            parts.append(('input', s.hex()) if s else ('input',))
             if chunked and s:
                 pieces, i = [], 0
                 while i < len(s):
                     n = self.rnd.randint(1, 3)
                     pieces.append(s[i:i + n].hex())
                     i += n
-                parts.append('(chunks %s)' % ' '.join(pieces))
-        return '(grammar %s)' % ' '.join(parts)
+                parts.append(('chunks',) + tuple(pieces))
+        return ser(('grammar',) + tuple(parts))
